@@ -6,8 +6,9 @@ mkdir -p /verif/target /verif/replays /verif/evidence
 cd /verif/harness
 cargo build --release -p vcheck -p vcheck-tantivy
 cargo build --release --manifest-path /repo/Cargo.toml --target-dir /verif/target/repo-bins \
-  -p predict -p evaluate -p manipulate_model
+  -p predict -p evaluate -p manipulate_model -p train -p convert_kytea_model
 /verif/tools/build_workers.sh quick
+/verif/tools/build_workers.sh quick checked
 RUSTFLAGS="-Zsanitizer=address -C debug-assertions=on -C overflow-checks=off" \
   cargo +nightly build --release --target x86_64-unknown-linux-gnu -p vcheck --target-dir /verif/target/asan
 echo "setup ok"
